@@ -75,7 +75,7 @@ def enumerate_ops(model, n, pools, groups=("replace", "marks", "structure", "mar
             yield {"op": "set_doc_attribute", "attr": name, "value": v}
 
 
-def default_pools(c, sc, slices, max_slices=None, max_nodes=6):
+def default_pools(c, sc, slices, max_slices=None, max_nodes=6, offset=0):
     """Pools derived from the scope: slices (given), closed nodes, marks, wrapper types, textblock types."""
     model = c.model
     from .universe import gen_steps
@@ -121,7 +121,13 @@ def default_pools(c, sc, slices, max_slices=None, max_nodes=6):
                 if (a, v) not in attrs:
                     attrs.append((a, v))
     doc_attrs = [(a, v) for a in model.types[model.top].attrs for v in (1, None)]
-    sl = slices if max_slices is None else slices[:max_slices]
+    if max_slices is None or len(slices) <= max_slices:
+        sl = slices
+    else:
+        # a stride through the (size-ordered) pool keeps every size / open depth represented;
+        # `offset` (from VERIF_SEED) rotates which complete sub-pool is used
+        stride = -(-len(slices) // max_slices)
+        sl = [slices[0], *slices[1 + (offset % stride)::stride]]
     return {
         "slices": sl,
         "nodes": picked[:max_nodes],
